@@ -5,6 +5,7 @@ import (
 	"encoding/hex"
 	"encoding/json"
 	"fmt"
+	"strings"
 	"testing"
 
 	"github.com/0chain/common/core/statecache"
@@ -46,6 +47,18 @@ type valueKind struct {
 	hooks   sctree.Hooks
 }
 
+// pay wraps a model value into node-value bytes that contain the node encoding's separator and a zero byte;
+// unpay recovers it (anything that does not have the two equal halves reads as corrupt).
+func pay(v string) []byte { return []byte(v + ":\x00:" + v) }
+
+func unpay(b []byte) string {
+	parts := strings.Split(string(b), ":\x00:")
+	if len(parts) != 2 || parts[0] != parts[1] {
+		return fmt.Sprintf("<corrupt value bytes %q>", b)
+	}
+	return parts[0]
+}
+
 func ssv(b []byte) *util.SecureSerializableValue {
 	return &util.SecureSerializableValue{Buffer: append([]byte(nil), b...)}
 }
@@ -74,20 +87,20 @@ func kinds() []valueKind {
 		}},
 		{"LeafNode", true, sctree.Hooks{
 			Make: func(v string) statecache.Value {
-				ln := util.NewLeafNode(util.Path("ab"), util.Path("cd"+hex.EncodeToString([]byte(v))), 3, ssv([]byte(v)))
+				ln := util.NewLeafNode(util.Path("ab"), util.Path("cd"+hex.EncodeToString([]byte(v))), 3, ssv(pay(v)))
 				ln.SetVersion(util.Sequence(4 + len(v))) // a copy carries origin and version, and they differ here
 				return ln
 			},
 			Read: func(v statecache.Value) string {
 				ln := v.(*util.LeafNode)
 				p, _ := hex.DecodeString(string(ln.Path[2:]))
-				if string(ln.Prefix) != "ab" || string(ln.Path[:2]) != "cd" || string(p) != string(ln.GetValueBytes()) {
+				if string(ln.Prefix) != "ab" || string(ln.Path[:2]) != "cd" || string(p) != unpay(ln.GetValueBytes()) {
 					return fmt.Sprintf("<corrupt leaf prefix=%q path=%q value=%q>", ln.Prefix, ln.Path, ln.GetValueBytes())
 				}
 				if ln.GetOrigin() != 3 || ln.GetVersion() != util.Sequence(4+len(p)) {
 					return fmt.Sprintf("<leaf %q with origin %d version %d, handed in with origin 3 version %d>", p, ln.GetOrigin(), ln.GetVersion(), 4+len(p))
 				}
-				return string(ln.GetValueBytes())
+				return unpay(ln.GetValueBytes())
 			},
 			Mutate: func(v statecache.Value) {
 				ln := v.(*util.LeafNode)
@@ -101,7 +114,7 @@ func kinds() []valueKind {
 		}},
 		{"FullNode", true, sctree.Hooks{
 			Make: func(v string) statecache.Value {
-				fn := util.NewFullNode(ssv([]byte(v)))
+				fn := util.NewFullNode(ssv(pay(v)))
 				fn.PutChild('a', child(v))
 				fn.SetOrigin(7)
 				fn.SetVersion(util.Sequence(1<<40 + len(v)))
@@ -109,7 +122,7 @@ func kinds() []valueKind {
 			},
 			Read: func(v statecache.Value) string {
 				fn := v.(*util.FullNode)
-				val := string(fn.GetValueBytes())
+				val := unpay(fn.GetValueBytes())
 				if string(fn.GetChild('a')) != string(child(val)) || fn.GetNumChildren() != 1 {
 					return fmt.Sprintf("<corrupt branch value=%q child=%x>", val, fn.GetChild('a'))
 				}
@@ -154,10 +167,10 @@ func kinds() []valueKind {
 		{"ValueNode", true, sctree.Hooks{
 			Make: func(v string) statecache.Value {
 				vn := util.NewValueNode()
-				vn.SetValue(ssv([]byte(v)))
+				vn.SetValue(ssv(pay(v)))
 				return vn
 			},
-			Read: func(v statecache.Value) string { return string(v.(*util.ValueNode).GetValueBytes()) },
+			Read: func(v statecache.Value) string { return unpay(v.(*util.ValueNode).GetValueBytes()) },
 			Mutate: func(v statecache.Value) {
 				if s, ok := v.(*util.ValueNode).GetValue().(*util.SecureSerializableValue); ok {
 					scribble(s.Buffer)
@@ -197,6 +210,7 @@ func TestPrivateUntilCommitAndCopies(t *testing.T) {
 		ev.ExtraAdd("lookups", int64(r.Lookups))
 		ev.ExtraAdd("hits", int64(r.Hits))
 		ev.ExtraAdd("direct_block_writes", int64(r.DirectBlockWrites))
+		ev.ExtraAdd("lookups_answered_20_or_more_links_back", int64(r.DeepWalks))
 		ev.ExtraAdd("must_hit_lookups", int64(r.MustHits))
 		if nt && ev.WantSample() {
 			lg := r.Log
